@@ -443,6 +443,13 @@ func runTree(ts treeScenario) result {
 				closed[i] = true
 			}
 		}
+		// work submitted to an actor after its Close returned is dropped — it is not processed by that
+		// actor, nor by its parent, a child or anybody else
+		for i := 0; i < n; i++ {
+			if closed[i] {
+				nodes[i].Send(900000 + i)
+			}
+		}
 		// every open node is an independent mailbox
 		for i := 0; i < n; i++ {
 			if closed[i] {
@@ -476,11 +483,21 @@ func runTree(ts treeScenario) result {
 		res.inconclusive = "tree messages slow"
 		return res
 	}
+	// each open mailbox is FIFO and has now processed its own messages, which were sent after the late
+	// ones: anything forwarded to it earlier has been processed too
 	mu.Lock()
 	defer mu.Unlock()
 	if wrongSelf > 0 {
 		res.failKey, res.failMsg = "C12/wrong-self", "a spawned actor's effect received a different actor as self"
 		return res
+	}
+	for i := 0; i < n; i++ {
+		for _, v := range got[i] {
+			if v >= 900000 {
+				res.failKey, res.failMsg = "C12/ran-after-close", fmt.Sprintf("message %d, sent to actor %d after its Close() returned, was processed by actor %d", v, v-900000, i)
+				return res
+			}
+		}
 	}
 	for i := 0; i < n; i++ {
 		if !closed[i] {
